@@ -1207,6 +1207,15 @@ package yang
 //@     invariant[a-concatenated-string-is-the-token-of-its-first-piece] t == atentry(t)
 //@     body_returns[what-is-handed-on-is-the-first-piece] result == old(t)
 //
+// Pattern mode (escapes kept as written) is on exactly while the argument of a
+// pattern statement is fetched: it is set for that one token according to the
+// keyword, and off again before the next token -- the ';' or the '{' and with
+// it everything inside the block -- is asked for.
+//@ func (*parser).nextStatement props C02
+//@   only before:
+//@   before[pattern-mode-is-for-the-argument-of-a-pattern-statement-only] (*parser).next#2 p.lex.inPattern == (s.Keyword == "pattern")
+//@   before[pattern-mode-ends-with-the-argument] (*parser).next#3 !p.lex.inPattern
+//
 // C02, token classes (partial contracts: the cursor preconditions of the calls
 // are assumed, see C16 for the cursor itself).
 // An unquoted token ends at, and only at, white space, a quote, ";", "{", "}" or
